@@ -960,10 +960,19 @@ func c01Walk(c *Ctx, a *avlAnchors) {
 				p := ps[0]
 				mk := eventsOf(p, func(e *Event) bool { return e.Kind == "mkclosure" })
 				calls := eventsOf(p, func(e *Event) bool { return e.Kind == "call" && e.Name == "dyn" })
+				// the collected slice itself, or all of it with the capacity clipped: x[:len(x)] / x[:len(x):len(x)]
+				var ret *Term
+				if len(p.Rets) == 1 {
+					ret = p.Rets[0]
+					if ret.Op == "slice" && len(ret.Args) == 4 && ret.Args[0].Op == "load" && (ret.Args[1].Op == "none" || ret.Args[1].IsConst("0")) &&
+						isLenOf(ret.Args[2], ret.Args[0]) && (ret.Args[3].Op == "none" || isLenOf(ret.Args[3], ret.Args[0])) {
+						ret = ret.Args[0]
+					}
+				}
 				ok = len(mk) == 1 && len(calls) == 1 && isParam(calls[0].Callee, 1) && calls[0].Args[0].Key() == mk[0].Val.Key() &&
-					len(p.Rets) == 1 && p.Rets[0].Op == "load" && p.Rets[0].Args[0].Op == "alloc"
+					ret != nil && ret.Op == "load" && ret.Args[0].Op == "alloc"
 				if ok {
-					cell := p.Rets[0].Args[0]
+					cell := ret.Args[0]
 					cidx := -1
 					for i, b := range mk[0].Val.Args {
 						if b.Key() == cell.Key() {
